@@ -24,7 +24,7 @@ ENCODED = ["twisted.python.filepath:FilePath.child", "twisted.python.filepath:Fi
            "twisted.python.filepath:AbstractFilePath.descendant", "twisted.web.static:File.getChild",
            "twisted.web.static:File.createSimilarFile", "twisted.web.server:Request.process",
            "twisted.web.resource:getChildForRequest", "twisted.web.resource:Resource.getChildWithDefault"]
-BOUNDS = {"quick": {"n": 5, "d": 4, "u": 4, "k": 3}, "thorough": {"n": 7, "d": 6, "u": 6, "k": 4}}
+BOUNDS = {"quick": {"n": 8, "d": 4, "u": 4, "k": 3}, "thorough": {"n": 7, "d": 6, "u": 6, "k": 4}}
 B = {}
 BOUNDS_TEXT = ("parent fixed to /r/ab (sibling /r/abc in mind); child/preauthChild name of <= n arbitrary code "
                "points; descendant of <= 2 segments with <= d characters in total; request path '/' + <= u "
